@@ -1,0 +1,9 @@
+//go:build verif
+
+package extfield
+
+// FieldPtr returns the field object a belongs to.
+func (a *Element) FieldPtr() *Field { return a.field }
+
+// HasTable reports whether the discrete-logarithm table is present.
+func (f *Field) HasTable() bool { return f.logTable != nil }
